@@ -9,7 +9,7 @@ from .core import Sub, Outcome, target
 PID = 'C03'
 SHARDS = {'quick': 8, 'thorough': 16}
 RULE = ('Systems from the C01 generator forced to contain at least one hard-core pair (HS / HCLJ / Exponential closed with unflagged PY or '
-        'HNC, optionally with an explicit potential sigma, or any closure with the hard-core flag). (evaluation) trial x vectors = smooth '
+        'HNC, optionally with an explicit potential sigma, or any closure with the hard-core flag), kT from 0.5 up to 1000. (evaluation) trial x vectors = smooth '
         'random fields x amplitude 1e-3..10 (applied to x, or to gamma = x/r itself up to |gamma| = 1e3), also sign changing and asymmetric; each closure instance is wrapped from outside to capture '
         '(r, gamma_in, c_out) during PRISM.cost(x): at every grid point with r_i <= sigma (literal comparison) c_out + gamma_in = -1 '
         'within 4 ulp of max(1,|gamma|), and the same through the pipeline (own inverse DST of the stored directCorr + GammaIn) within '
@@ -42,9 +42,12 @@ def hard_pairs(spec):
     return out
 
 
-def force_hard(spec, sig_draw):
-    """make sure there is a hard-core pair; optionally give unflagged hard potentials an explicit sigma"""
+def force_hard(spec, sig_draw, hot=None):
+    """make sure there is a hard-core pair; optionally give unflagged hard potentials an explicit sigma; optionally raise kT
+    (up to 1000: high_value/kT stays above 745, so exp(-u) is still exactly 0 inside the cores)"""
     spec = dict(spec)
+    if hot:
+        spec['kT'] = float('%.4g' % min(1000.0, spec['kT'] * hot))
     spec['potential'] = dict(spec['potential'])
     spec['closure'] = dict(spec['closure'])
     if not hard_pairs(spec):
@@ -64,7 +67,8 @@ def force_hard(spec, sig_draw):
 
 def core_strategy(tier):
     sig = st.lists(st.one_of(st.none(), st.none(), st.sampled_from([0.8, 1.0, 1.2, 0.5])), min_size=6, max_size=6)
-    return st.tuples(S.system_spec(big=(tier == 'thorough'), allow_ms=True), sig).map(lambda t: force_hard(*t))
+    hot = st.sampled_from([None, None, 10.0, 50.0, 200.0, 1000.0])
+    return st.tuples(S.system_spec(big=(tier == 'thorough'), allow_ms=True), sig, hot).map(lambda t: force_hard(*t))
 
 
 class Evaluation(Sub):
@@ -154,7 +158,7 @@ class Evaluation(Sub):
         for kk in hard:
             out.label('hard=' + spec['closure'][kk][0] + ('+flag' if spec['closure'][kk][1] else '') + '/' + spec['potential'][kk][0]
                       + ('/explicit-sigma' if len(spec['potential'][kk]) > 2 else ''))
-        out.label('amp>1' if spec['amp'] > 1 else 'amp<=1', 'max|gamma|>50' if gmax > 50 else 'max|gamma|<=50')
+        out.label('kT>=30' if spec['kT'] >= 30 else 'kT<30', 'amp>1' if spec['amp'] > 1 else 'amp<=1', 'max|gamma|>50' if gmax > 50 else 'max|gamma|<=50')
         return out
 
 
